@@ -42,6 +42,8 @@ CONSTANTS Apps,         \* set of appender names (strings)
           MaxOps,       \* bound on the history length
           EmitMode,     \* "all" (every transition) | "state" (one per distinct state) | "none"
           HistViews,    \* TRUE: every history step carries the predicted views (simulation)
+          NoClose,      \* TRUE: readers stay open (state-space reduction for the long serial histories)
+          MaxOpen,      \* at most this many appenders between Begin and Close at any time (1 = strictly serial histories)
           OrderedBegin  \* TRUE: appenders are created in name order (state-space reduction for the 3-appender emission model)
 
 VARIABLES lastID,   \* isolation.appendsOpenList.appendID (last issued append id)
@@ -77,16 +79,25 @@ Appendable(sr, t) == sr.samples = <<>> \/ t > Last(sr.samples).t
 
 \* memSeries.append: appendPreprocessor cuts a new head chunk when the open one is full, then
 \* the sample goes to the open chunk and its append id to the ring
+\* txRing.add also keeps the physical ring: cap = len(txIDs) (0, then 4, then doubling when full: the contents are
+\* unrolled so that the first id is at slot 0), first = txIDFirst.  The logical contents are `ring`.
+Grows(sr) == Len(sr.ring) = sr.cap
 Store(sr, t, id, a, n) ==
   [sr EXCEPT !.samples = Append(@, [t |-> t, id |-> id, a |-> a, n |-> n]),
              !.ring    = Append(@, id),
+             !.cap     = IF Grows(sr) THEN (IF @ = 0 THEN 4 ELSE 2 * @) ELSE @,
+             !.first   = IF Grows(sr) THEN 0 ELSE @,
              !.chunks  = IF @ = <<>> \/ Last(@) >= ChunkCap THEN Append(@, 1)
                          ELSE [@ EXCEPT ![Len(@)] = @ + 1]]
+\* txRing.cleanupAppendIDsBelow: the first slot advances (modulo the capacity) past every dropped id
+Cleanup(sr, bound) ==
+  LET r2 == DropBelow(sr.ring, bound)  d == Len(sr.ring) - Len(r2) IN
+  [sr EXCEPT !.ring = r2, !.first = IF sr.cap = 0 THEN 0 ELSE (@ + d) % sr.cap]
 
 Init ==
   /\ lastID = 0 /\ open = {}
   /\ ap = [a \in Apps |-> [pc |-> "idle", id |-> 0, lw |-> 0, batch |-> <<>>, k |-> 0]]
-  /\ ser = [s \in Series |-> [samples |-> <<>>, ring |-> <<>>, chunks |-> <<>>, mm |-> 0]]
+  /\ ser = [s \in Series |-> [samples |-> <<>>, ring |-> <<>>, cap |-> 0, first |-> 0, chunks |-> <<>>, mm |-> 0]]
   /\ rd = [r \in Readers |-> [st |-> "new", max |-> 0, inc |-> {}, lw |-> 0]]
   /\ nops = 0
   /\ hist = <<>>
@@ -165,7 +176,7 @@ Views == [r \in Readers |->
                             {<<t, Smps(SeekView(r, s, t))>> : t \in {u \in Times : SeekView(r, s, u) # From(View(r, s), u)}}]]]
 
 \* implementation-shaped state, compared as drift only
-Shape == [s \in Series |-> [ring |-> ser[s].ring, chunks |-> ser[s].chunks, mm |-> ser[s].mm]]
+Shape == [s \in Series |-> [ring |-> ser[s].ring, cap |-> ser[s].cap, first |-> ser[s].first, chunks |-> ser[s].chunks, mm |-> ser[s].mm]]
 
 -----------------------------------------------------------------------------
 (* Actions.                                                                 *)
@@ -175,10 +186,11 @@ Step(rec) == /\ nops' = nops + 1
              /\ hist' = Append(hist, IF HistViews THEN rec @@ [views |-> Views', shape |-> Shape'] ELSE rec)
 
 \* Head.Appender (iso.newAppendID) followed by the Append calls; a sample is batched iff appendable
-AppRank(a) == CHOOSE i \in 1..4 : <<"a1", "a2", "a3", "a4">>[i] = a
+AppRank(a) == CHOOSE i \in 1..9 : <<"a1", "a2", "a3", "a4", "a5", "a6", "a7", "a8", "a9">>[i] = a
 Begin(a) ==
   /\ ap[a].pc = "idle"
   /\ OrderedBegin => \A b \in Apps : AppRank(b) < AppRank(a) => ap[b].pc # "idle"
+  /\ Cardinality({b \in Apps : ap[b].pc \in {"open", "commit"}}) < MaxOpen
   /\ LET id  == lastID + 1
          op  == open \cup {id}
          lw  == LowWatermark(op, id)
@@ -199,12 +211,14 @@ CommitSample(a) ==
          sr  == ser[smp.s]
          ok  == Appendable(sr, smp.t)
          sr1 == IF ok THEN Store(sr, smp.t, ap[a].id, a, n) ELSE sr
-         sr2 == [sr1 EXCEPT !.ring = DropBelow(@, ap[a].lw)]
+         sr2 == Cleanup(sr1, ap[a].lw)
+         \* code-shaped coverage dimension: the ring grew at this append, and where its first slot was (-1 = no growth)
+         grow == IF ok /\ Grows(sr) /\ sr.cap > 0 THEN sr.first ELSE -1
      IN /\ ser' = [ser EXCEPT ![smp.s] = sr2]
         /\ ap' = [ap EXCEPT ![a].pc = "commit", ![a].k = @ + 1]
         /\ UNCHANGED <<lastID, open, rd>>
         /\ Step([a |-> "CommitSample", app |-> a, n |-> n, s |-> smp.s, stored |-> ok,
-                 cut |-> (ok /\ Len(sr1.chunks) > Len(sr.chunks) /\ sr.chunks # <<>>)])
+                 cut |-> (ok /\ Len(sr1.chunks) > Len(sr.chunks) /\ sr.chunks # <<>>), grow |-> grow])
 
 \* iso.closeAppend at the end of Commit
 Close(a) ==
@@ -220,7 +234,7 @@ Rollback(a) ==
   /\ a \in Rollbackers
   /\ ap[a].pc = "open"
   /\ LET touched == {Tx[a][ap[a].batch[i]].s : i \in 1..Len(ap[a].batch)} IN
-     ser' = [s \in Series |-> IF s \in touched THEN [ser[s] EXCEPT !.ring = DropBelow(@, ap[a].lw)] ELSE ser[s]]
+     ser' = [s \in Series |-> IF s \in touched THEN Cleanup(ser[s], ap[a].lw) ELSE ser[s]]
   /\ open' = open \ {ap[a].id}
   /\ ap' = [ap EXCEPT ![a].pc = "rolled"]
   /\ UNCHANGED <<lastID, rd>>
@@ -243,6 +257,7 @@ OpenRead(r) ==
   /\ Step([a |-> "OpenRead", r |-> r])
 
 CloseRead(r) ==
+  /\ ~NoClose
   /\ rd[r].st = "open"
   /\ rd' = [rd EXCEPT ![r].st = "closed"]
   /\ UNCHANGED <<lastID, open, ap, ser>>
@@ -280,6 +295,9 @@ TypeOK ==
                        /\ ser[s].mm <= Len(ser[s].chunks)
 
 \* the ring holds the append ids of the newest samples of the series, in order
+\* the physical ring is large enough and its first slot is a valid index
+RingShape == \A s \in Series : /\ Len(ser[s].ring) <= ser[s].cap
+                               /\ ser[s].cap = 0 \/ ser[s].first \in 0..(ser[s].cap - 1)
 RingConsistent == \A s \in Series :
   LET q == ser[s].samples  d == Len(q) - Len(ser[s].ring) IN
   \A i \in 1..Len(ser[s].ring) : ser[s].ring[i] = q[d + i].id
@@ -353,6 +371,11 @@ TxTwoC  == [a \in {"a1", "a2"} |->
              IF a = "a1" THEN <<S("s1", 1), S("s1", 3), S("s1", 5)>> ELSE <<S("s1", 2), S("s1", 4), S("s1", 6)>>]
 \* three appenders, one sample each in one series: reader/appender watermark interplay (the cleanup bound
 \* of the third appender comes from the oldest of two readers)
+\* nine single-sample transactions on one series (plus one sample on a second series): with serial commits the
+\* watermark cleanup walks the first slot of the 4-slot ring round (3 of 4 after four transactions); a reader opened then
+\* pins the watermark and the next four appends fill and grow the ring while it is wrapped
+TxSerial == [a \in {"a1", "a2", "a3", "a4", "a5", "a6", "a7", "a8", "a9"} |->
+              IF a = "a7" THEN <<S("s1", AppRank(a)), S("s2", AppRank(a))>> ELSE <<S("s1", AppRank(a))>>]
 TxWm    == [a \in {"a1", "a2", "a3"} |->
              CASE a = "a1" -> <<S("s1", 1)>> [] a = "a2" -> <<S("s1", 2)>> [] a = "a3" -> <<S("s1", 3)>>]
 \* three appenders, five samples in s1 (two chunk cuts, ring growth past its initial capacity 4)
